@@ -15,6 +15,7 @@ import (
 	"strings"
 	"sync"
 	"testing"
+	"testing/synctest"
 	"time"
 	"unicode/utf16"
 	"unicode/utf8"
@@ -39,6 +40,10 @@ type Case struct {
 	Tree           ANode    `json:"tree"`
 	DisableBuiltin bool     `json:"disable_builtin,omitempty"`
 	Names          []string `json:"names"`
+	// StartGap (ns of bubble time, 0 = phase off): a server built without a
+	// configured start time is started this long after NewServer.
+	StartGap int64  `json:"start_gap,omitempty"`
+	StartOpt string `json:"start_opt,omitempty"` // nil | zero: how "no start time" is spelled
 }
 
 type world struct {
@@ -264,6 +269,59 @@ func (d *dynAssigner) Assign(ctx context.Context, method string) jrpc2.Handler {
 // A notification registers a method with a concurrency-safe assigner (its
 // handler is held until the batch behind it has been assigned); the
 // rpc.serverInfo call that follows must list the new name.
+// startPhase: ServerOptions.StartTime - "If nonzero this value as the server
+// start time; otherwise, use the current time when Start is called". Inside a
+// bubble (the clock stands still unless the test sleeps) a server is built, the
+// clock is advanced, the server is started: rpc.serverInfo reports the instant
+// of Start, to the nanosecond, however long before that NewServer ran.
+func startPhase(c Case) (out *engine.Verdict) {
+	defer func() {
+		if p := recover(); p != nil {
+			v := engine.Failf("C17/serverinfo", "start-time phase: %v", p)
+			out = &v
+		}
+	}()
+	synctest.Test(&testing.T{}, func(*testing.T) {
+		var opts *jrpc2.ServerOptions
+		if c.StartOpt == "zero" {
+			opts = &jrpc2.ServerOptions{DisableBuiltin: c.DisableBuiltin}
+		}
+		srv := jrpc2.NewServer(handler.Map{"m": func(context.Context, *jrpc2.Request) (any, error) { return 1, nil }}, opts)
+		time.Sleep(time.Duration(c.StartGap))
+		cli, srvEnd := channel.Direct()
+		started := time.Now()
+		srv.Start(srvEnd)
+		time.Sleep(time.Duration(c.StartGap)/2 + 1)
+		got := srv.ServerInfo().StartTime
+		var viaCall *time.Time
+		if opts == nil || !c.DisableBuiltin {
+			cli.Send([]byte(`{"jsonrpc":"2.0","id":1,"method":"rpc.serverInfo"}`))
+			rsp, _ := cli.Recv()
+			var m struct {
+				Result struct {
+					StartTime *time.Time `json:"startTime"`
+				}
+			}
+			json.Unmarshal(rsp, &m)
+			viaCall = m.Result.StartTime
+			if viaCall == nil {
+				v := engine.Failf("C17/serverinfo-fields", "rpc.serverInfo reply %s has no start time", rsp)
+				out = &v
+			}
+		}
+		cli.Close()
+		srv.Wait()
+		if out != nil {
+			return
+		}
+		if !got.Equal(started) || (viaCall != nil && !viaCall.Equal(started)) {
+			v := engine.Failf("C17/serverinfo-fields", "no start time configured (%s options), NewServer at bubble time T, Start at T+%v: ServerInfo reports start time T+%v, rpc.serverInfo %v; want the time Start was called", c.StartOpt, time.Duration(c.StartGap), got.Sub(started.Add(-time.Duration(c.StartGap))), viaCall)
+			out = &v
+		}
+	})
+	return out
+}
+
 func dynPhase(name string) *engine.Verdict {
 	if name == "" || !utf8.ValidString(name) {
 		return nil
@@ -652,6 +710,12 @@ func run(_ *testing.T, c Case) engine.Verdict {
 			return *p
 		}
 	}
+	if c.StartGap > 0 {
+		if p := startPhase(c); p != nil {
+			return *p
+		}
+		labels = append(labels, "started-later-than-built")
+	}
 	// The same assigner behind a Bridge whose GET side is a Getter
 	// (BridgeOptions.ParseGETRequest), on a push-enabled server: the dispatch
 	// rules, the reserved prefix and DisableBuiltin apply there as well.
@@ -815,6 +879,10 @@ func genCase(t *rapid.T) Case {
 		}
 		c.Names = append(c.Names, name)
 	}
+	if rapid.IntRange(0, 3).Draw(t, "startphase") == 0 {
+		c.StartGap = rapid.SampledFrom([]int64{1, 1000, int64(time.Millisecond), int64(time.Second), int64(time.Hour), int64(100 * 24 * time.Hour)}).Draw(t, "startgap")
+		c.StartOpt = rapid.SampledFrom([]string{"nil", "zero"}).Draw(t, "startopt")
+	}
 	return c
 }
 
@@ -823,7 +891,7 @@ var parts = []engine.AnyPart{
 		Rule:           "EVERY string of length <= 4 over {r,p,c,R,.,a} (1555 names) plus prefixed/embedded variants (rpc.serverInfo, rpc.serverinfo, RPC.x, rpc.., a..a, ...), each dispatched through a real Server and through Assign directly, against 4 assigner trees (Map with hostile keys, ServiceMap nested 1-3 deep incl. empty keys and keys containing dots, empty Map) x DisableBuiltin on/off; a case is one tree/config with 120 names; non-trivial = a name containing '.' or starting with rpc in any case",
 		EnumExhaustive: "all names up to length 4 over the 6-symbol alphabet for each of the 4 trees and both built-in settings"},
 	engine.Part[Case]{Name: "random", Run: run, Gen: genCase,
-		Rule: "generated assigner trees (nesting up to 3, keys over an alphabet with dots, rpc, unicode, empty) and 1-30 names per tree: known names, near misses (extra/leading dot, case change, doubled dot), rpc.* names; oracle = a reference resolver written from the documentation; distinct = the case"},
+		Rule: "generated assigner trees (nesting up to 3, keys over an alphabet with dots, rpc, unicode, empty) and 1-30 names per tree: known names, near misses (extra/leading dot, case change, doubled dot), rpc.* names; one case in four also builds a server without a configured start time, advances the bubble clock by 1ns..100 days and starts it (rpc.serverInfo must report the instant of Start); oracle = a reference resolver written from the documentation; distinct = the case"},
 }
 
 func TestProp(t *testing.T)   { engine.RunParts(t, "C17", parts) }
